@@ -172,7 +172,8 @@ Eval(e, env, S) ==
         IF r1.s.err # "" THEN r1 ELSE
         LET r2 == Eval(x.args[2], env, r1.s) IN
         IF r2.s.err # "" THEN r2 ELSE
-        IF r1.v[1] # "i" \/ r2.v[1] # "i" THEN [v |-> NoneV, s |-> [r2.s EXCEPT !.err = "TypeError"]]
+        \* (a bool is an int in Python: True + 1 = 2, (a or b) > 0 compares whatever the or produced)
+        IF r1.v[1] \notin {"i", "b"} \/ r2.v[1] \notin {"i", "b"} THEN [v |-> NoneV, s |-> [r2.s EXCEPT !.err = "TypeError"]]
         \* TLC integers are 32 bit: executions whose values leave +-30000 are not explored further ("big" is not canonical)
         ELSE IF r1.v[2] > 30000 \/ r1.v[2] < -30000 \/ r2.v[2] > 30000 \/ r2.v[2] < -30000
         THEN [v |-> NoneV, s |-> [r2.s EXCEPT !.err = "big"]]
@@ -181,6 +182,9 @@ Eval(e, env, S) ==
                       [] x.kind = "lt" -> BoolV(a < b) [] x.kind = "le" -> BoolV(a <= b) [] x.kind = "gt" -> BoolV(a > b)
                       [] x.kind = "ge" -> BoolV(a >= b) [] x.kind = "eq" -> BoolV(a = b) [] x.kind = "ne" -> BoolV(a # b),
               s |-> r2.s]
+    [] x.kind = "isnone" ->      \* (e is None)
+        LET r == Eval(x.args[1], env, S) IN
+        IF r.s.err # "" THEN r ELSE [v |-> BoolV(r.v = NoneV), s |-> r.s]
     [] x.kind = "range" ->       \* range(e): a list of the ints 0..e-1
         LET r == Eval(x.args[1], env, S) IN
         IF r.s.err # "" THEN r
